@@ -212,6 +212,17 @@ impl WTClient {
         self.retriers.get(tower_id)
     }
 
+    /// Whether an appointment is already known for a given tower, no matter in which state (accepted, pending or invalid).
+    pub fn knows_appointment(&self, tower_id: TowerId, locator: Locator) -> bool {
+        self.towers.get(&tower_id).map_or(false, |tower| {
+            tower.pending_appointments.contains(&locator)
+                || tower.invalid_appointments.contains(&locator)
+        }) || self
+            .dbm
+            .load_appointment_receipt(tower_id, locator)
+            .is_some()
+    }
+
     /// Adds an appointment receipt to the tower record.
     pub fn add_appointment_receipt(
         &mut self,
@@ -223,6 +234,16 @@ impl WTClient {
         if let Some(tower) = self.towers.get_mut(&tower_id) {
             // DISCUSS: It may be nice to independently compute the slots and compare
             tower.available_slots = available_slots;
+
+            // The same appointment may be acknowledged more than once (e.g. if the node notifies the same revocation again)
+            if self
+                .dbm
+                .load_appointment_receipt(tower_id, locator)
+                .is_some()
+            {
+                log::debug!("Appointment receipt already stored ({tower_id}, {locator})");
+                return;
+            }
 
             self.dbm
                 .store_appointment_receipt(tower_id, locator, available_slots, receipt)
@@ -244,7 +265,10 @@ impl WTClient {
     /// Adds a pending appointment to the tower record.
     pub fn add_pending_appointment(&mut self, tower_id: TowerId, appointment: &Appointment) {
         if let Some(tower) = self.towers.get_mut(&tower_id) {
-            tower.pending_appointments.insert(appointment.locator);
+            // Nothing to do if it was already there
+            if !tower.pending_appointments.insert(appointment.locator) {
+                return;
+            }
 
             self.dbm
                 .store_pending_appointment(tower_id, appointment)
@@ -270,7 +294,10 @@ impl WTClient {
     /// Adds an invalid appointment to the tower record.
     pub fn add_invalid_appointment(&mut self, tower_id: TowerId, appointment: &Appointment) {
         if let Some(tower) = self.towers.get_mut(&tower_id) {
-            tower.invalid_appointments.insert(appointment.locator);
+            // Nothing to do if it was already there
+            if !tower.invalid_appointments.insert(appointment.locator) {
+                return;
+            }
 
             self.dbm
                 .store_invalid_appointment(tower_id, appointment)
